@@ -214,7 +214,7 @@ Proof.
   assert (Ncx : forall i' v, nget (nset (conns st) i v) i' = if Nat.eqb i i' then Some v else nget (conns st) i') by (intros; apply nget_nset).
   destruct e as [e|].
   - rewrite ecode_some. replace (al && negb (al && ep_allowed_peer c q (ac_ep ac))) with false by (rewrite Estill; destruct al; reflexivity).
-    cbn [hd scopes]. split; [exact H|]. split.
+    rewrite (a_par_leaf a (Conn i) h eq_refl Gh), Hp'. cbn [hd scopes]. split; [exact H|]. split.
     + intros i' ac' Gi. destruct (Lc i' ac' Gi) as (ci' & hc & P1 & R). unfold conn_link. cbn [conns]. rewrite Ncx.
       destruct (Nat.eqb i i') eqn:X.
       * apply Nat.eqb_eq in X. subst i'. rewrite Gci in P1. inversion P1; subst ci'. exists ci, hc. split; [reflexivity | exact R].
